@@ -2,6 +2,7 @@ SPECIFICATION Spec
 CONSTANTS
   MaxSessions = 3
   MaxMsgs = 2
+  MaxInc = 2
   Mutant = "remove_no_wait"
 INVARIANTS Discipline SilenceAfterRemove
 CHECK_DEADLOCK FALSE
